@@ -56,6 +56,18 @@ CHECKS = {
                         "end-stream content is only compared when the model can decide it (flag clear: raw; flag set and payload really compressed with the negotiated encoding: plaintext); flagged garbage only must not crash",
                         "expected end-stream plaintext is produced with the repository's own compressors (their correctness is C20's subject)"],
     }),
+    "C16": dict(TRACER_BASE, **{
+        "scenarios": [{"name": "c16-slots", "share": 0.5}, {"name": "c16-builder", "share": 0.5}],
+        "budget": {"quick": {"seconds": 30, "workers": 16}, "thorough": {"seconds": 900, "workers": 16}},
+        "rule": "c16-slots: 2-5 tasks issue 1-4 seeded operations each (Init, Complete with a unique trace, Await with a fake-clock deadline of 1 ms..5 s, Clear) on up to 3 test names, with seeded pauses; every scheduling decision from the tape; the step at which each operation's critical section ran is read off the scheduler's step records and a sequential slot model is replayed in that order. c16-builder: one traced HTTP operation through TracingRoundTripper or TracingHandler with request body, response body (or transport error), application reads/early close and context cancellation issued from 2-4 concurrent tasks at seeded instants. Distinct = hash of the step log + operations; non-trivial = at least one preemption (or a cancellation).",
+        "expect_probes": ["await-absent", "await-after-completion", "await-before-completion", "await-timeout", "complete-without-effect", "waiter-across-reinit", "context-cancelled", "body-closed-early"],
+        "real": ["internal/tracer: tracer.go (Init/Complete/Await/Clear), builder.go, middleware.go, reader.go (instrumented copies of the current tree)"],
+        "stubbed": ["HTTP transport/handler (scripted), bodies (simio), wall clock (synctest), goroutine scheduling (seeded scheduler)"],
+        "assumptions": ["each slot operation has exactly one critical section (checked per run: otherwise the run is discarded as not analysable)",
+                        "when a slot is cleared or re-initialised while a waiter waits, the waiter may time out or obtain a later completion (the statement does not decide it)",
+                        "a completion that coincides with the waiter's deadline may go either way",
+                        "the data-race clause is not decided here: under the controlled scheduler all steps are ordered by the scheduler's hand-offs"],
+    }),
     "C09": {
         "testpkg": "./internal",
         "instrument": [{"pkg": "./internal", "files": ["delimited.go"], "mode": "S"}],
